@@ -50,7 +50,17 @@ func (s *Sim) maybeForkTwin(n *Node) {
 		return
 	}
 	s.persistSeen++
-	if s.persistSeen < s.nextTwinAt {
+	// a node that is a round behind its peers holds pipelined next-round state (votes, payloads) in
+	// the state it persists: the most interesting instants to restore from. Fork there at once.
+	lagging := false
+	for _, o := range s.nodes {
+		if !o.adv && o.led.next() > n.led.next() {
+			lagging = true
+		}
+	}
+	if lagging {
+		s.stat("twin_forked_on_lagging_node", 1)
+	} else if s.persistSeen < s.nextTwinAt {
 		return
 	}
 	t := &Node{id: n.id, accts: n.accts, alive: true, factoryID: n.factoryID, slowFlush: n.slowFlush, incs: 1000 + s.twinSeq,
